@@ -236,18 +236,13 @@ class CenteredDifferences(BaseGradientApproximator):
             lower_bounds = normalize_vect(lower_bounds)
             upper_bounds = normalize_vect(upper_bounds)
 
-        steps_plus = where(
-            input_perturbations[input_indices, range(n_indices)] >= upper_bounds,
-            0,
-            step,
-        )
+        current_values = input_perturbations[input_indices, range(n_indices)].copy()
+        exceeds_upper_bound = current_values + step > upper_bounds[list(input_indices)]
+        exceeds_lower_bound = current_values - step < lower_bounds[list(input_indices)]
+        steps_plus = where(exceeds_upper_bound, 0, step)
         input_perturbations[input_indices, range(n_indices)] += steps_plus
-        steps_minus = where(
-            input_perturbations[input_indices, range(n_indices, 2 * n_indices)]
-            <= lower_bounds,
-            0,
-            -step,
-        )
+        # The upper bound has priority when the interval is narrower than the step.
+        steps_minus = where(exceeds_lower_bound & ~exceeds_upper_bound, 0, -step)
         steps = concatenate([steps_plus, steps_minus], axis=-1)
         input_perturbations[input_indices, range(n_indices, 2 * n_indices)] += (
             steps_minus
